@@ -76,7 +76,7 @@ def _worker(case):
 
 def run(tier, seed, broken_proof=False):
     rng = random.Random(seed + 1616)
-    count = 110 if tier == "quick" else 1000
+    count = 250 if tier == "quick" else 1500
     cases = []
     # candidate bases per mode, steered to (weakly) consistent ones on the model side; 12 % inconsistent ones are kept
     pool_ = {}
